@@ -1,4 +1,1476 @@
 package main
 
+// Lock programs (C13, C08). For every function of crl/crlrepository/crlrepository.go and
+// crl/crlrevocationchecker.go: the ordered lock/field-access program
+//   acq lock mode | rel lock mode | rd field | wr field | call fn | spawn fn | pick | alt | loop | ret
+// with `defer` resolved to every function exit, then (entry points only) inlined along the call
+// graph and lowered to a control-flow graph for Crv.Locks. Fails closed: a lock used in any way
+// other than X.Lock()/RLock()/Unlock()/RUnlock() on a known lock expression, a TryLock, a lock
+// passed around, a Lock without matching Unlock on some path, recursion, or an unknown statement
+// shape is an extraction error.
+
+import (
+	"fmt"
+	"go/ast"
+	"go/token"
+	"sort"
+	"strings"
+)
+
+const (
+	repoFile    = "crl/crlrepository/crlrepository.go"
+	checkerFile = "crl/crlrevocationchecker.go"
+)
+
+var lockNames = []string{"updateMutex", "workDirMutex", "repoLock", "entryLock"}
+var lockScopes = []string{".glob", ".glob", ".chk", ".ent"}
+var fieldNames = []string{"repoMap", "entry.Loaded", "entry.CRLStore", "entry.storeContent", "entry.Chains",
+	"entry.LastUpdateSignatureVerifyFailed", "entry.LastUpdateSignature", "entry.CRLLoader", "entry.loaderState",
+	"checker.lastCrlUpdateFinishTime", "checker.crlUpdateStop", "checker.crlUpdateTicker", "workDirsInUse"}
+var fieldScopes = []string{".chk", ".ent", ".ent", ".ent", ".ent", ".ent", ".ent", ".ent", ".ent", ".chk", ".chk", ".chk", ".glob"}
+
+// functions that only run before the checker is handed out (Caddy provisions a module before it
+// serves, `go` orders them before the spawned goroutine): their writes to checker fields are
+// initialisation, emitted as facts of kind "wrInit" and not as shared writes.
+var initOnly = map[string]string{"CRLRevocationChecker.Provision": "", "CRLRevocationChecker.initCRLUpdateTicker": "CRLRevocationChecker.Provision",
+	"NewCRLRepository": "CRLRevocationChecker.Provision"}
+
+// parameters of type crlstore.CRLStore: is the argument the entry's live store or a thread-local temporary?
+var storeParams = map[string]string{"Repository.getStoredCertAsChain/oldStore": "shared", "Repository.updateEntry/store": "temp"}
+
+type ir struct {
+	kind  string // acq rel rd wr wrInit call spawn pick alt loop ret break continue
+	a, b  string // lock+mode | field | callee
+	pos   string
+	alts  [][]*ir
+	body  []*ir
+	entry bool // call: callee's entry parameter is bound to the caller's entry variable
+}
+
+type lfunc struct {
+	name string
+	fd   *ast.FuncDecl
+	lit  *ast.FuncLit
+	body []*ir
+	recv string // receiver identifier
+	typ  string // receiver type
+	file string
+}
+
+type lockGen struct {
+	c          *ctx
+	funcs      map[string]*lfunc
+	order      []string
+	entryField map[string]bool
+	storeMut   map[string]bool // store method name -> mutates S.Map / S.Db
+	loaderMut  map[string]bool
+	retEntry   map[string]bool // function returns *Entry first
+	facts      []map[string]string
+	lockUses   int
+}
+
+func idx(list []string, s string) int {
+	for i, x := range list {
+		if x == s {
+			return i
+		}
+	}
+	fail("locks: unknown name %s", s)
+	return -1
+}
+
+func recvOf(fd *ast.FuncDecl) (id, typ string) {
+	if fd.Recv == nil || len(fd.Recv.List) != 1 {
+		return "", ""
+	}
+	t := fd.Recv.List[0].Type
+	if s, ok := t.(*ast.StarExpr); ok {
+		t = s.X
+	}
+	if len(fd.Recv.List[0].Names) == 1 {
+		id = fd.Recv.List[0].Names[0].Name
+	}
+	return id, exprStr(t)
+}
+
+// mutators: methods of the given receiver types whose body assigns/put/closes one of the state selectors
+func (g *lockGen) mutators(rel string, types []string, stateSel []string, mutCalls []string) map[string]bool {
+	out := map[string]bool{}
+	for _, d := range g.c.file(rel).Decls {
+		fd, ok := d.(*ast.FuncDecl)
+		if !ok || fd.Body == nil {
+			continue
+		}
+		rid, rt := recvOf(fd)
+		found := false
+		for _, t := range types {
+			found = found || t == rt
+		}
+		if !found {
+			continue
+		}
+		mut := false
+		ast.Inspect(fd.Body, func(n ast.Node) bool {
+			switch x := n.(type) {
+			case *ast.AssignStmt:
+				for _, l := range x.Lhs {
+					s := exprStr(l)
+					for _, st := range stateSel {
+						if s == rid+"."+st || strings.HasPrefix(s, rid+"."+st+"[") {
+							mut = true
+						}
+					}
+				}
+			case *ast.CallExpr:
+				s := exprStr(x.Fun)
+				for _, mc := range mutCalls {
+					if s == rid+"."+mc {
+						mut = true
+					}
+				}
+			}
+			return true
+		})
+		out[fd.Name.Name] = out[fd.Name.Name] || mut
+	}
+	return out
+}
+
 func genLocks(c *ctx, out string) {
+	g := &lockGen{c: c, funcs: map[string]*lfunc{}, entryField: map[string]bool{}, retEntry: map[string]bool{}}
+	// Entry struct fields
+	for _, d := range c.file(repoFile).Decls {
+		gd, ok := d.(*ast.GenDecl)
+		if !ok || gd.Tok != token.TYPE {
+			continue
+		}
+		for _, s := range gd.Specs {
+			ts := s.(*ast.TypeSpec)
+			if st, ok := ts.Type.(*ast.StructType); ok && ts.Name.Name == "Entry" {
+				for _, f := range st.Fields.List {
+					for _, n := range f.Names {
+						g.entryField[n.Name] = true
+					}
+				}
+			}
+		}
+	}
+	for _, f := range []string{"entryLock", "CRLLoader", "CRLStore", "LastUpdateSignatureVerifyFailed", "LastUpdateSignature", "Loaded", "Chains"} {
+		if !g.entryField[f] {
+			fail("locks: Entry has no field %s", f)
+		}
+		delete(g.entryField, f)
+	}
+	if len(g.entryField) != 0 {
+		fail("locks: Entry has fields the lock model does not know: %v", g.entryField)
+	}
+	for _, f := range []string{"entryLock", "CRLLoader", "CRLStore", "LastUpdateSignatureVerifyFailed", "LastUpdateSignature", "Loaded", "Chains"} {
+		g.entryField[f] = true
+	}
+	// which store / loader methods mutate the state the entry lock is supposed to protect
+	m1 := g.mutators("crl/crlstore/map.go", []string{"MapStore"}, []string{"Map"}, []string{"set", "close"})
+	m2 := g.mutators("crl/crlstore/leveldb.go", []string{"LevelDbStore"}, []string{"Db"},
+		[]string{"Db.Put", "Db.Delete", "Db.Write", "Db.Close", "closeDbWithRetries", "removeWithRetries", "renameWithRetries", "renameWithRetriesToTempDir"})
+	g.storeMut = map[string]bool{}
+	for k, v := range m1 {
+		g.storeMut[k] = v
+	}
+	for k, v := range m2 {
+		if _, ok := m1[k]; !ok && ast.IsExported(k) {
+			fail("locks: store method %s exists only for LevelDbStore", k)
+		}
+		g.storeMut[k] = g.storeMut[k] || v
+	}
+	g.loaderMut = g.mutators("crl/crlloader/multischemescrlloader.go", []string{"MultiSchemesCRLLoader"}, []string{"lastSuccessfulLoader"}, nil)
+	for _, rel := range []string{"crl/crlloader/urlcrlloader.go", "crl/crlloader/filecrlloader.go"} {
+		for k, v := range g.mutators(rel, []string{"URLLoader", "FileLoader"}, []string{"UrlString", "FileName", "Url", "Path", "Logger"}, nil) {
+			g.loaderMut[k] = g.loaderMut[k] || v
+		}
+	}
+	// collect functions
+	for _, rel := range []string{repoFile, checkerFile} {
+		for _, d := range c.file(rel).Decls {
+			fd, ok := d.(*ast.FuncDecl)
+			if !ok || fd.Body == nil {
+				continue
+			}
+			rid, rt := recvOf(fd)
+			name := fd.Name.Name
+			if rt != "" {
+				name = rt + "." + name
+			}
+			g.funcs[name] = &lfunc{name: name, fd: fd, recv: rid, typ: rt, file: rel}
+			g.order = append(g.order, name)
+			if fd.Type.Results != nil && len(fd.Type.Results.List) > 0 && exprStr(fd.Type.Results.List[0].Type) == "*Entry" {
+				g.retEntry[name] = true
+			}
+		}
+	}
+	g.checkLockMentions()
+	for _, name := range append([]string{}, g.order...) {
+		f := g.funcs[name]
+		t := &ftrans{g: g, f: f, entryVars: map[string]string{}, stores: map[string]string{}}
+		t.params(f.fd.Type)
+		f.body = t.funcBody(f.fd.Body)
+	}
+	g.checkInitOnly()
+	// thread entry points
+	progs := [][2]string{{"hs", "CRLRevocationChecker.IsRevoked"}, {"update", "CRLRevocationChecker.updateCRLsRecovering"},
+		{"cfgUpdate", "Repository.UpdateCRL"}, {"cleanup", "CRLRevocationChecker.Cleanup"},
+		{"ticker", "CRLRevocationChecker.initCRLUpdateTicker.func1"}, {"provision", "CRLRevocationChecker.Provision"},
+		{"updateDirect", "CRLRevocationChecker.updateCRLs"}}
+	progIndex := map[string]int{}
+	for i, p := range progs {
+		if g.funcs[p[1]] == nil {
+			fail("locks: thread entry point %s not found", p[1])
+		}
+		progIndex[p[1]] = i
+	}
+	l := newLean("Locks", "Crv.Locks")
+	l.p("open Crv.Locks")
+	l.p("")
+	l.p("/-- lock classes: index = id used in the programs -/")
+	l.p("def lockNames : List String := [%s]", quoteList(lockNames))
+	l.p("def fieldNames : List String := [%s]", quoteList(fieldNames))
+	l.p("def progNames : List String := [%s]", quoteList(firsts(progs)))
+	l.p("")
+	l.p("/-! Per-function lock programs as extracted (documentation; the checked objects are the CFGs below).")
+	for _, name := range g.order {
+		f := g.funcs[name]
+		if !g.hasFacts(name, map[string]bool{}) {
+			continue
+		}
+		l.p("%s (%s)", name, c.pos(f.fd))
+		dumpIR(l, f.body, "  ")
+	}
+	l.p("-/")
+	l.p("")
+	nest := map[[2]int]string{}
+	var cfgs []*cfg
+	for i, p := range progs {
+		b := &cfg{g: g, progIndex: progIndex, name: p[0]}
+		retNode := b.add("ret", "", nil)
+		entry := b.seq(g.funcs[p[1]].body, retNode, retNode, -1, -1, []string{p[1]})
+		b.finish(entry, nest)
+		cfgs = append(cfgs, b)
+		l.p("/-- thread program %d `%s` = %s, calls inlined -/", i, p[0], p[1])
+		l.p("def prog_%s : Prog := { name := %s, entry := %d, nodes := [", p[0], leanStr(p[0]), b.entry)
+		for k, n := range b.nodes {
+			sep := ","
+			if k == len(b.nodes)-1 {
+				sep = ""
+			}
+			l.p("  ⟨%s, %s, %s⟩%s -- %d %s", n.instr, natList(n.succ), heldList(n.held), sep, k, n.pos)
+		}
+		l.p("] }")
+		l.p("def progPos_%s : List String := [%s]", p[0], quoteList(b.positions()))
+		l.p("")
+	}
+	// ranks: longest path in the nesting graph (held before -> requested); a cycle leaves all ranks 0
+	rank := make([]int, len(lockNames))
+	for iter := 0; iter <= len(lockNames); iter++ {
+		changed := false
+		for e := range nest {
+			if rank[e[1]] < rank[e[0]]+1 {
+				rank[e[1]] = rank[e[0]] + 1
+				changed = true
+			}
+		}
+		if !changed {
+			break
+		}
+		if iter == len(lockNames) {
+			for i := range rank {
+				rank[i] = 0
+			}
+		}
+	}
+	var nestKeys [][2]int
+	for e := range nest {
+		nestKeys = append(nestKeys, e)
+	}
+	sort.Slice(nestKeys, func(i, j int) bool {
+		return nestKeys[i][0] < nestKeys[j][0] || (nestKeys[i][0] == nestKeys[j][0] && nestKeys[i][1] < nestKeys[j][1])
+	})
+	l.p("/-- nested acquisitions found: (held, requested), first site -/")
+	var ns, nsDoc []string
+	for _, e := range nestKeys {
+		ns = append(ns, fmt.Sprintf("(%d, %d)", e[0], e[1]))
+		nsDoc = append(nsDoc, fmt.Sprintf("%s -> %s at %s", lockNames[e[0]], lockNames[e[1]], nest[e]))
+	}
+	l.p("def lockNesting : List (Nat × Nat) := [%s] -- %s", strings.Join(ns, ", "), strings.Join(nsDoc, "; "))
+	l.p("")
+	var pn []string
+	for _, p := range progs {
+		pn = append(pn, "prog_"+p[0])
+	}
+	l.p("def sys : Sys := { lockScope := [%s], lockRank := %s, fieldScope := [%s], progs := [%s] }",
+		strings.Join(lockScopes, ", "), natList(rank), strings.Join(fieldScopes, ", "), strings.Join(pn, ", "))
+	// OCSP cache handle
+	l.p("")
+	l.p("/-- ocsp/ocsprevocationchecker.go: functions that assign `c.cache` -/")
+	l.p("def ocspCacheAssignedIn : List String := [%s]", quoteList(g.ocspCacheWriters()))
+	l.write(out)
+	c.facts["locks.accesses"] = g.facts
+	c.facts["locks.lockNames"] = lockNames
+	c.facts["locks.fieldNames"] = fieldNames
+	c.facts["locks.progNames"] = firsts(progs)
+	var sizes []int
+	for _, b := range cfgs {
+		sizes = append(sizes, len(b.nodes))
+	}
+	c.facts["locks.progSizes"] = sizes
+	c.facts["locks.rank"] = rank
+}
+
+func firsts(p [][2]string) []string {
+	var o []string
+	for _, x := range p {
+		o = append(o, x[0])
+	}
+	return o
+}
+
+func quoteList(l []string) string {
+	var o []string
+	for _, s := range l {
+		o = append(o, leanStr(s))
+	}
+	return strings.Join(o, ", ")
+}
+
+func natList(l []int) string {
+	var o []string
+	for _, s := range l {
+		o = append(o, fmt.Sprint(s))
+	}
+	return "[" + strings.Join(o, ", ") + "]"
+}
+
+func heldList(h []string) string {
+	var o []string
+	for _, s := range h {
+		p := strings.Split(s, "/")
+		o = append(o, fmt.Sprintf("(%d, .%s)", idx(lockNames, p[0]), p[1]))
+	}
+	return "[" + strings.Join(o, ", ") + "]"
+}
+
+func dumpIR(l *leanFile, list []*ir, ind string) {
+	for _, n := range list {
+		switch n.kind {
+		case "alt":
+			l.p("%salt", ind)
+			for _, a := range n.alts {
+				l.p("%s |", ind)
+				dumpIR(l, a, ind+"    ")
+			}
+		case "loop", "loop1":
+			l.p("%s%s @%s", ind, map[string]string{"loop": "loop", "loop1": "deferred-literal"}[n.kind], n.pos)
+			dumpIR(l, n.body, ind+"    ")
+		default:
+			l.p("%s%s %s %s @%s", ind, n.kind, n.a, n.b, n.pos)
+		}
+	}
+}
+
+func (g *lockGen) ocspCacheWriters() []string {
+	var out []string
+	for _, d := range g.c.file("ocsp/ocsprevocationchecker.go").Decls {
+		fd, ok := d.(*ast.FuncDecl)
+		if !ok || fd.Body == nil {
+			continue
+		}
+		rid, _ := recvOf(fd)
+		ast.Inspect(fd.Body, func(n ast.Node) bool {
+			if as, ok := n.(*ast.AssignStmt); ok {
+				for _, lh := range as.Lhs {
+					if exprStr(lh) == rid+".cache" {
+						out = append(out, fd.Name.Name)
+					}
+				}
+			}
+			return true
+		})
+	}
+	return out
+}
+
+// every mention of a lock must be its declaration, its construction or the receiver of Lock/RLock/Unlock/RUnlock
+func (g *lockGen) checkLockMentions() {
+	lockIdents := map[string]bool{"entryLock": true, "crlRepositoryLock": true, "crlUpdateMutex": true, "workDirInUseMutex": true}
+	for _, rel := range []string{repoFile, checkerFile} {
+		f := g.c.file(rel)
+		allowed := map[*ast.Ident]bool{}
+		ast.Inspect(f, func(n ast.Node) bool {
+			switch x := n.(type) {
+			case *ast.Field:
+				for _, nm := range x.Names {
+					allowed[nm] = true
+				}
+			case *ast.ValueSpec:
+				for _, nm := range x.Names {
+					allowed[nm] = true
+				}
+			case *ast.KeyValueExpr:
+				if id, ok := x.Key.(*ast.Ident); ok {
+					allowed[id] = true
+				}
+			case *ast.CallExpr:
+				if se, ok := x.Fun.(*ast.SelectorExpr); ok {
+					switch se.Sel.Name {
+					case "Lock", "RLock", "Unlock", "RUnlock":
+						switch r := se.X.(type) {
+						case *ast.Ident:
+							allowed[r] = true
+						case *ast.SelectorExpr:
+							allowed[r.Sel] = true
+						}
+					case "TryLock", "TryRLock", "RLocker":
+						fail("%s: %s is not a supported lock usage", g.c.pos(x), se.Sel.Name)
+					}
+				}
+			}
+			return true
+		})
+		ast.Inspect(f, func(n ast.Node) bool {
+			if id, ok := n.(*ast.Ident); ok && lockIdents[id.Name] && !allowed[id] {
+				fail("%s: lock %s is used other than by Lock/RLock/Unlock/RUnlock (passed around or aliased)", g.c.pos(id), id.Name)
+			}
+			return true
+		})
+		// sync types may only occur in the declarations/constructions checked above
+		ast.Inspect(f, func(n ast.Node) bool {
+			if se, ok := n.(*ast.SelectorExpr); ok && exprStr(se.X) == "sync" {
+				switch se.Sel.Name {
+				case "RWMutex", "Mutex":
+				default:
+					fail("%s: sync.%s is not modelled", g.c.pos(se), se.Sel.Name)
+				}
+			}
+			return true
+		})
+	}
+}
+
+func (g *lockGen) checkInitOnly() {
+	callers := map[string]map[string]bool{}
+	var walk func(fn string, list []*ir)
+	walk = func(fn string, list []*ir) {
+		for _, n := range list {
+			if n.kind == "call" || n.kind == "spawn" {
+				if callers[n.a] == nil {
+					callers[n.a] = map[string]bool{}
+				}
+				callers[n.a][fn] = true
+			}
+			for _, a := range n.alts {
+				walk(fn, a)
+			}
+			walk(fn, n.body)
+		}
+	}
+	for name, f := range g.funcs {
+		walk(name, f.body)
+	}
+	for fn, only := range initOnly {
+		if g.funcs[fn] == nil {
+			fail("locks: initialisation function %s not found", fn)
+		}
+		for c := range callers[fn] {
+			if c != only {
+				fail("locks: %s is assumed to run only during Provision but is called from %s", fn, c)
+			}
+		}
+	}
+}
+
+func (g *lockGen) hasFacts(fn string, seen map[string]bool) bool {
+	if seen[fn] {
+		return false
+	}
+	seen[fn] = true
+	f := g.funcs[fn]
+	if f == nil {
+		return false
+	}
+	var any func(list []*ir) bool
+	any = func(list []*ir) bool {
+		for _, n := range list {
+			switch n.kind {
+			case "acq", "rel", "rd", "wr", "spawn", "pick":
+				return true
+			case "call":
+				if g.hasFacts(n.a, seen) {
+					return true
+				}
+			}
+			for _, a := range n.alts {
+				if any(a) {
+					return true
+				}
+			}
+			if any(n.body) {
+				return true
+			}
+		}
+		return false
+	}
+	return any(f.body)
+}
+
+// ---- per function translation -------------------------------------------------------------
+
+type ftrans struct {
+	g         *lockGen
+	f         *lfunc
+	entryVars map[string]string // ident -> "shared" | "fresh"
+	stores    map[string]string // ident -> "shared" | "temp"
+	usedEntry string            // the one shared entry variable used for locks / fields
+	nlit      int
+	inLoop    int
+}
+
+func (t *ftrans) pos(n ast.Node) string { return t.g.c.pos(n) }
+
+func (t *ftrans) params(ft *ast.FuncType) {
+	if ft.Params == nil {
+		return
+	}
+	for _, p := range ft.Params.List {
+		ty := exprStr(p.Type)
+		for _, n := range p.Names {
+			switch ty {
+			case "*Entry":
+				t.entryVars[n.Name] = "shared"
+			case "crlstore.CRLStore":
+				k, ok := storeParams[t.f.name+"/"+n.Name]
+				if !ok {
+					fail("%s: %s has a store parameter %s the lock model does not know", t.pos(p), t.f.name, n.Name)
+				}
+				t.stores[n.Name] = k
+			case "*sync.RWMutex", "*sync.Mutex", "sync.Locker":
+				fail("%s: lock passed as a parameter", t.pos(p))
+			}
+		}
+	}
+}
+
+func (t *ftrans) fact(kind, a, b string, n ast.Node) *ir {
+	p := t.pos(n)
+	if kind == "wr" {
+		if _, ok := initOnly[t.f.name]; ok && strings.HasPrefix(a, "checker.") {
+			kind = "wrInit"
+		}
+	}
+	if kind == "rd" || kind == "wr" || kind == "wrInit" {
+		t.g.facts = append(t.g.facts, map[string]string{"kind": kind, "field": a, "fn": t.f.name, "pos": p})
+	}
+	return &ir{kind: kind, a: a, b: b, pos: p}
+}
+
+func (t *ftrans) useEntry(id *ast.Ident) bool {
+	k, ok := t.entryVars[id.Name]
+	if !ok {
+		fail("%s: %s.%s: %s is not a known repository entry variable", t.pos(id), id.Name, "<field>", id.Name)
+	}
+	if k == "fresh" {
+		return false
+	}
+	if t.usedEntry != "" && t.usedEntry != id.Name {
+		fail("%s: %s uses two entry variables (%s, %s); the lock model binds one entry per function", t.pos(id), t.f.name, t.usedEntry, id.Name)
+	}
+	t.usedEntry = id.Name
+	return true
+}
+
+// lockOf recognises the lock expressions of the code base.
+func (t *ftrans) lockOf(e ast.Expr) (string, bool) {
+	switch x := e.(type) {
+	case *ast.Ident:
+		switch x.Name {
+		case "crlUpdateMutex":
+			return "updateMutex", true
+		case "workDirInUseMutex":
+			return "workDirMutex", true
+		}
+	case *ast.SelectorExpr:
+		if id, ok := x.X.(*ast.Ident); ok {
+			if x.Sel.Name == "crlRepositoryLock" && id.Name == t.f.recv && t.f.typ == "Repository" {
+				return "repoLock", true
+			}
+			if x.Sel.Name == "entryLock" {
+				if !t.useEntry(id) {
+					fail("%s: lock of a not yet published entry is taken", t.pos(x))
+				}
+				return "entryLock", true
+			}
+		}
+	}
+	return "", false
+}
+
+// lockCall recognises X.Lock() etc. as a statement.
+func (t *ftrans) lockCall(e ast.Expr) *ir {
+	call, ok := e.(*ast.CallExpr)
+	if !ok {
+		return nil
+	}
+	se, ok := call.Fun.(*ast.SelectorExpr)
+	if !ok {
+		return nil
+	}
+	var kind, mode string
+	switch se.Sel.Name {
+	case "Lock":
+		kind, mode = "acq", "w"
+	case "RLock":
+		kind, mode = "acq", "r"
+	case "Unlock":
+		kind, mode = "rel", "w"
+	case "RUnlock":
+		kind, mode = "rel", "r"
+	default:
+		return nil
+	}
+	lk, ok := t.lockOf(se.X)
+	if !ok {
+		fail("%s: %s on an unknown lock expression %s", t.pos(call), se.Sel.Name, exprStr(se.X))
+	}
+	if lk == "updateMutex" || lk == "workDirMutex" {
+		if mode == "r" {
+			fail("%s: RLock on a plain mutex", t.pos(call))
+		}
+	}
+	t.g.lockUses++
+	return t.fact(kind, lk, mode, call)
+}
+
+// exit: the deferred actions in LIFO order, then ret
+func (t *ftrans) exit(defers [][]*ir, pos string) []*ir {
+	var out []*ir
+	for i := len(defers) - 1; i >= 0; i-- {
+		out = append(out, defers[i]...)
+	}
+	return append(out, &ir{kind: "ret", pos: pos})
+}
+
+func terminates(list []*ir) bool {
+	if len(list) == 0 {
+		return false
+	}
+	n := list[len(list)-1]
+	switch n.kind {
+	case "ret", "break", "continue":
+		return true
+	case "alt":
+		for _, a := range n.alts {
+			if !terminates(a) {
+				return false
+			}
+		}
+		return true
+	}
+	return false
+}
+
+func trivial(list []*ir) bool { return len(list) == 0 }
+
+type deferStack struct{ items [][]*ir }
+
+func (t *ftrans) stmts(stmts []ast.Stmt, ds *deferStack) []*ir {
+	var out []*ir
+	for i, s := range stmts {
+		if ifs, ok := s.(*ast.IfStmt); ok {
+			r, consumed := t.ifStmt(ifs, ds, stmts[i+1:])
+			out = append(out, r...)
+			if consumed {
+				return out
+			}
+			continue
+		}
+		out = append(out, t.stmt(s, ds)...)
+	}
+	return out
+}
+
+// ifStmt: both arms as alternatives. A defer registered inside an arm that falls through makes the
+// defer stack path dependent: then the rest of the enclosing block is translated once per arm
+// (and every arm must leave the function by the end of it).
+func (t *ftrans) ifStmt(x *ast.IfStmt, ds *deferStack, rest []ast.Stmt) ([]*ir, bool) {
+	var out []*ir
+	if x.Init != nil {
+		out = append(out, t.stmt(x.Init, ds)...)
+	}
+	out = append(out, t.expr(x.Cond)...)
+	before := len(ds.items)
+	thenDs := &deferStack{items: append([][]*ir{}, ds.items...)}
+	thenIR := t.stmts(x.Body.List, thenDs)
+	var elseIR []*ir
+	elseDs := &deferStack{items: append([][]*ir{}, ds.items...)}
+	if x.Else != nil {
+		switch e := x.Else.(type) {
+		case *ast.BlockStmt:
+			elseIR = t.stmts(e.List, elseDs)
+		case *ast.IfStmt:
+			elseIR = t.stmts([]ast.Stmt{e}, elseDs)
+		}
+	}
+	thenLeaks := len(thenDs.items) != before && !terminates(thenIR)
+	elseLeaks := len(elseDs.items) != before && !terminates(elseIR)
+	if thenLeaks || elseLeaks {
+		if !terminates(thenIR) {
+			thenIR = append(thenIR, t.stmts(rest, thenDs)...)
+		}
+		if !terminates(elseIR) {
+			elseIR = append(elseIR, t.stmts(rest, elseDs)...)
+		}
+		if !terminates(thenIR) || !terminates(elseIR) {
+			fail("%s: conditional defer whose branch does not leave the function by the end of the enclosing block", t.pos(x))
+		}
+		return append(out, &ir{kind: "alt", alts: [][]*ir{thenIR, elseIR}, pos: t.pos(x)}), true
+	}
+	if trivial(thenIR) && trivial(elseIR) {
+		return out, false
+	}
+	return append(out, &ir{kind: "alt", alts: [][]*ir{thenIR, elseIR}, pos: t.pos(x)}), false
+}
+
+func (t *ftrans) stmt(s ast.Stmt, ds *deferStack) []*ir {
+	switch x := s.(type) {
+	case *ast.ExprStmt:
+		if exprStr(x.X) != "" && strings.HasPrefix(exprStr(x.X), "verifhook.Hit(") {
+			return nil
+		}
+		if l := t.lockCall(x.X); l != nil {
+			return []*ir{l}
+		}
+		return t.expr(x.X)
+	case *ast.DeferStmt:
+		if t.inLoop > 0 {
+			fail("%s: defer inside a loop", t.pos(x))
+		}
+		if l := t.lockCall(x.Call); l != nil {
+			if l.kind != "rel" {
+				fail("%s: deferred lock acquisition", t.pos(x))
+			}
+			ds.items = append(ds.items, []*ir{l})
+			return nil
+		}
+		if fl, ok := x.Call.Fun.(*ast.FuncLit); ok {
+			if len(x.Call.Args) != 0 {
+				fail("%s: deferred function literal with arguments", t.pos(x))
+			}
+			ds.items = append(ds.items, t.literal(fl))
+			return nil
+		}
+		var out []*ir
+		for _, a := range x.Call.Args {
+			out = append(out, t.expr(a)...)
+		}
+		// the deferred callee itself: a known function is called at exit, anything else has no facts
+		callee := t.expr(&ast.CallExpr{Fun: x.Call.Fun, Lparen: x.Call.Lparen, Rparen: x.Call.Rparen})
+		ds.items = append(ds.items, callee)
+		return out
+	case *ast.GoStmt:
+		var out []*ir
+		for _, a := range x.Call.Args {
+			out = append(out, t.expr(a)...)
+		}
+		if fl, ok := x.Call.Fun.(*ast.FuncLit); ok {
+			t.nlit++
+			name := fmt.Sprintf("%s.func%d", t.f.name, t.nlit)
+			sub := &ftrans{g: t.g, f: &lfunc{name: name, recv: t.f.recv, typ: t.f.typ, file: t.f.file}, entryVars: map[string]string{}, stores: map[string]string{}}
+			body := sub.literalNamed(fl)
+			t.g.funcs[name] = &lfunc{name: name, lit: fl, body: body, recv: t.f.recv, typ: t.f.typ, file: t.f.file, fd: &ast.FuncDecl{Name: ast.NewIdent(name), Type: fl.Type, Body: fl.Body}}
+			t.g.order = append(t.g.order, name)
+			return append(out, &ir{kind: "spawn", a: name, pos: t.pos(x)})
+		}
+		callee := t.callee(x.Call)
+		if callee == "" {
+			fail("%s: go statement with an unknown callee %s", t.pos(x), exprStr(x.Call.Fun))
+		}
+		return append(out, &ir{kind: "spawn", a: callee, pos: t.pos(x)})
+	case *ast.ReturnStmt:
+		var out []*ir
+		for _, r := range x.Results {
+			out = append(out, t.expr(r)...)
+		}
+		return append(out, t.exit(ds.items, t.pos(x))...)
+	case *ast.AssignStmt:
+		return t.assign(x)
+	case *ast.DeclStmt:
+		gd := x.Decl.(*ast.GenDecl)
+		var out []*ir
+		for _, sp := range gd.Specs {
+			vs, ok := sp.(*ast.ValueSpec)
+			if !ok {
+				fail("%s: unsupported declaration", t.pos(x))
+			}
+			if vs.Type != nil && exprStr(vs.Type) == "crlstore.CRLStore" && len(vs.Values) == 0 {
+				for _, n := range vs.Names {
+					t.stores[n.Name] = "temp"
+				}
+			}
+			if len(vs.Values) > 0 {
+				lhs := make([]ast.Expr, len(vs.Names))
+				for i, n := range vs.Names {
+					lhs[i] = n
+				}
+				out = append(out, t.assign(&ast.AssignStmt{Lhs: lhs, Tok: token.DEFINE, Rhs: vs.Values, TokPos: vs.Pos()})...)
+			}
+		}
+		return out
+	case *ast.IncDecStmt:
+		return t.expr(x.X)
+	case *ast.IfStmt:
+		r, _ := t.ifStmt(x, ds, nil)
+		return r
+	case *ast.ForStmt:
+		var out []*ir
+		if x.Init != nil {
+			out = append(out, t.stmt(x.Init, ds)...)
+		}
+		var body []*ir
+		if x.Cond != nil {
+			body = append(body, t.expr(x.Cond)...)
+		}
+		t.inLoop++
+		body = append(body, t.stmts(x.Body.List, ds)...)
+		if x.Post != nil {
+			body = append(body, t.stmt(x.Post, ds)...)
+		}
+		t.inLoop--
+		if trivial(body) {
+			return out
+		}
+		return append(out, &ir{kind: "loop", body: body, pos: t.pos(x)})
+	case *ast.RangeStmt:
+		out := t.expr(x.X)
+		var body []*ir
+		if v, ok := x.Value.(*ast.Ident); ok && v != nil && strings.HasSuffix(exprStr(x.X), ".crlRepository") {
+			t.entryVars[v.Name] = "shared"
+			body = append(body, &ir{kind: "pick", pos: t.pos(x)})
+		}
+		t.inLoop++
+		body = append(body, t.stmts(x.Body.List, ds)...)
+		t.inLoop--
+		if trivial(body) {
+			return out
+		}
+		return append(out, &ir{kind: "loop", body: body, pos: t.pos(x)})
+	case *ast.SelectStmt:
+		// all channel operands are evaluated on entry, then one clause runs
+		var out []*ir
+		var alts [][]*ir
+		for _, cl := range x.Body.List {
+			cc := cl.(*ast.CommClause)
+			switch c := cc.Comm.(type) {
+			case nil:
+			case *ast.ExprStmt:
+				out = append(out, t.expr(c.X)...)
+			case *ast.AssignStmt:
+				for _, r := range c.Rhs {
+					out = append(out, t.expr(r)...)
+				}
+			default:
+				fail("%s: unsupported select clause", t.pos(cc))
+			}
+		}
+		for _, cl := range x.Body.List {
+			alts = append(alts, t.stmts(cl.(*ast.CommClause).Body, ds))
+		}
+		return append(out, &ir{kind: "alt", alts: alts, pos: t.pos(x)})
+	case *ast.BranchStmt:
+		if x.Label != nil || t.inLoop == 0 {
+			fail("%s: unsupported branch statement", t.pos(x))
+		}
+		switch x.Tok {
+		case token.BREAK:
+			return []*ir{{kind: "break", pos: t.pos(x)}}
+		case token.CONTINUE:
+			return []*ir{{kind: "continue", pos: t.pos(x)}}
+		}
+		fail("%s: unsupported branch statement", t.pos(x))
+	case *ast.BlockStmt:
+		return t.stmts(x.List, ds)
+	case *ast.EmptyStmt:
+		return nil
+	}
+	fail("%s: %s: statement shape %T is not supported by the lock translator", t.pos(s), t.f.name, s)
+	return nil
+}
+
+// literal translates a function literal that runs in place (deferred or passed as a callback):
+// its own returns end the literal, so its body becomes alt[body-paths] with ret mapped to fallthrough.
+func (t *ftrans) literal(fl *ast.FuncLit) []*ir {
+	save := t.inLoop
+	t.inLoop = 0
+	ds := &deferStack{}
+	body := t.stmts(fl.Body.List, ds)
+	body = append(body, t.exit(ds.items, t.pos(fl.Body))...)
+	t.inLoop = save
+	if !containsFacts(body) {
+		return nil
+	}
+	// a loop that runs the body once: `ret` inside becomes `break`
+	return []*ir{{kind: "loop1", body: retToBreak(body), pos: t.pos(fl)}}
+}
+
+func (t *ftrans) literalNamed(fl *ast.FuncLit) []*ir { return t.funcBody(fl.Body) }
+
+// funcBody: the statements, then the implicit exit with the defers registered on the fall-through path
+func (t *ftrans) funcBody(b *ast.BlockStmt) []*ir {
+	ds := &deferStack{}
+	body := t.stmts(b.List, ds)
+	if terminates(body) {
+		return body
+	}
+	p := t.g.c.fset.Position(b.Rbrace)
+	return append(body, t.exit(ds.items, fmt.Sprintf("%s:%d", t.f.file, p.Line))...)
+}
+
+func containsFacts(list []*ir) bool {
+	for _, n := range list {
+		switch n.kind {
+		case "ret", "break", "continue":
+		case "alt":
+			for _, a := range n.alts {
+				if containsFacts(a) {
+					return true
+				}
+			}
+		case "loop", "loop1":
+			if containsFacts(n.body) {
+				return true
+			}
+		default:
+			return true
+		}
+	}
+	return false
+}
+
+func retToBreak(list []*ir) []*ir {
+	var out []*ir
+	for _, n := range list {
+		c := *n
+		switch n.kind {
+		case "ret":
+			c.kind = "break"
+		case "alt":
+			c.alts = nil
+			for _, a := range n.alts {
+				c.alts = append(c.alts, retToBreak(a))
+			}
+		case "loop", "loop1":
+			// an inner loop captures break; a ret inside it cannot be expressed
+			if hasRet(n.body) {
+				fail("%s: return inside a loop inside a function literal", n.pos)
+			}
+		}
+		out = append(out, &c)
+	}
+	return out
+}
+
+func hasRet(list []*ir) bool {
+	for _, n := range list {
+		if n.kind == "ret" {
+			return true
+		}
+		for _, a := range n.alts {
+			if hasRet(a) {
+				return true
+			}
+		}
+		if hasRet(n.body) {
+			return true
+		}
+	}
+	return false
+}
+
+// callee resolves a call to one of the translated functions ("" = not one of them).
+func (t *ftrans) callee(call *ast.CallExpr) string {
+	switch f := call.Fun.(type) {
+	case *ast.Ident:
+		if _, ok := t.g.funcs[f.Name]; ok {
+			return f.Name
+		}
+	case *ast.SelectorExpr:
+		x := exprStr(f.X)
+		if x == t.f.recv && t.f.typ != "" {
+			if _, ok := t.g.funcs[t.f.typ+"."+f.Sel.Name]; ok {
+				return t.f.typ + "." + f.Sel.Name
+			}
+		}
+		if t.f.typ == "CRLRevocationChecker" && x == t.f.recv+".crlRepository" {
+			if _, ok := t.g.funcs["Repository."+f.Sel.Name]; ok {
+				return "Repository." + f.Sel.Name
+			}
+			fail("%s: call of unknown repository method %s", t.pos(call), f.Sel.Name)
+		}
+		if x == "crlrepository" && f.Sel.Name == "NewCRLRepository" {
+			return "NewCRLRepository"
+		}
+	}
+	return ""
+}
+
+func (t *ftrans) assign(x *ast.AssignStmt) []*ir {
+	var out []*ir
+	for _, r := range x.Rhs {
+		out = append(out, t.exprCtx(r, "rhs")...)
+	}
+	// classify new variables
+	if len(x.Rhs) == 1 {
+		if id, ok := x.Lhs[0].(*ast.Ident); ok {
+			switch r := x.Rhs[0].(type) {
+			case *ast.CallExpr:
+				if c := t.callee(r); c != "" && t.g.retEntry[c] {
+					t.entryVars[id.Name] = "shared"
+					out = append(out, &ir{kind: "pick", pos: t.pos(x)})
+				}
+				if strings.HasSuffix(exprStr(r.Fun), ".Factory.CreateStore") {
+					t.stores[id.Name] = "temp"
+				}
+			case *ast.IndexExpr:
+				if strings.HasSuffix(exprStr(r.X), ".crlRepository") {
+					t.entryVars[id.Name] = "shared"
+					out = append(out, &ir{kind: "pick", pos: t.pos(x)})
+				}
+			case *ast.CompositeLit:
+				if exprStr(r.Type) == "Entry" {
+					t.entryVars[id.Name] = "fresh"
+				}
+			case *ast.SelectorExpr:
+				if eid, ok := r.X.(*ast.Ident); ok && r.Sel.Name == "CRLStore" && t.entryVars[eid.Name] != "" {
+					t.stores[id.Name] = t.entryVars[eid.Name]
+					if t.stores[id.Name] == "fresh" {
+						t.stores[id.Name] = "temp"
+					}
+				}
+			}
+		}
+	}
+	for _, l := range x.Lhs {
+		out = append(out, t.lhs(l)...)
+	}
+	return out
+}
+
+func (t *ftrans) lhs(l ast.Expr) []*ir {
+	switch x := l.(type) {
+	case *ast.Ident:
+		if x.Name == "workDirsInUse" {
+			return []*ir{t.fact("wr", "workDirsInUse", "", x)}
+		}
+		return nil
+	case *ast.IndexExpr:
+		out := t.expr(x.Index)
+		if f := t.fieldOf(x.X); f != "" {
+			return append(out, t.fact("wr", f, "", x))
+		}
+		return append(out, t.expr(x.X)...)
+	case *ast.SelectorExpr:
+		if f := t.fieldOf(x); f != "" {
+			if f == "skip" {
+				return nil
+			}
+			return []*ir{t.fact("wr", f, "", x)}
+		}
+		return t.expr(x.X)
+	case *ast.StarExpr:
+		return t.expr(x.X)
+	}
+	fail("%s: unsupported assignment target %s", t.pos(l), exprStr(l))
+	return nil
+}
+
+// fieldOf maps a selector / identifier to a tracked field class ("" = untracked, "skip" = fresh object).
+func (t *ftrans) fieldOf(e ast.Expr) string {
+	switch x := e.(type) {
+	case *ast.Ident:
+		if x.Name == "workDirsInUse" {
+			return "workDirsInUse"
+		}
+	case *ast.SelectorExpr:
+		id, ok := x.X.(*ast.Ident)
+		if !ok {
+			if t.g.entryField[x.Sel.Name] && x.Sel.Name != "CRLStore" {
+				fail("%s: entry field %s reached through %s", t.pos(x), x.Sel.Name, exprStr(x.X))
+			}
+			return ""
+		}
+		if id.Name == t.f.recv && t.f.typ == "Repository" && x.Sel.Name == "crlRepository" {
+			return "repoMap"
+		}
+		if id.Name == t.f.recv && t.f.typ == "CRLRevocationChecker" {
+			switch x.Sel.Name {
+			case "lastCrlUpdateFinishTime", "crlUpdateStop", "crlUpdateTicker":
+				return "checker." + x.Sel.Name
+			}
+		}
+		if _, isEntry := t.entryVars[id.Name]; isEntry && t.g.entryField[x.Sel.Name] {
+			if x.Sel.Name == "entryLock" {
+				fail("%s: entry lock used as a value", t.pos(x))
+			}
+			if !t.useEntry(id) {
+				return "skip"
+			}
+			return "entry." + x.Sel.Name
+		}
+		if t.g.entryField[x.Sel.Name] && id.Name != "processor" && id.Name != "newEntry" {
+			// a selector named like an entry field on something that is not a known entry variable
+			if x.Sel.Name != "CRLStore" {
+				fail("%s: %s.%s: not a known entry variable", t.pos(x), id.Name, x.Sel.Name)
+			}
+		}
+	}
+	return ""
+}
+
+func (t *ftrans) expr(e ast.Expr) []*ir { return t.exprCtx(e, "") }
+
+// exprCtx collects, in evaluation order, the tracked reads and the calls of translated functions.
+func (t *ftrans) exprCtx(e ast.Expr, ctxKind string) []*ir {
+	switch x := e.(type) {
+	case nil:
+		return nil
+	case *ast.Ident:
+		if x.Name == "workDirsInUse" {
+			return []*ir{t.fact("rd", "workDirsInUse", "", x)}
+		}
+		return nil
+	case *ast.BasicLit:
+		return nil
+	case *ast.ParenExpr:
+		return t.expr(x.X)
+	case *ast.StarExpr:
+		return t.expr(x.X)
+	case *ast.UnaryExpr:
+		return t.expr(x.X)
+	case *ast.BinaryExpr:
+		// entry.CRLStore == nil is a plain read of the field
+		return append(t.exprCtx(x.X, "cmp"), t.exprCtx(x.Y, "cmp")...)
+	case *ast.IndexExpr:
+		return append(t.expr(x.X), t.expr(x.Index)...)
+	case *ast.SliceExpr:
+		return append(append(append(t.expr(x.X), t.expr(x.Low)...), t.expr(x.High)...), t.expr(x.Max)...)
+	case *ast.TypeAssertExpr:
+		return t.expr(x.X)
+	case *ast.KeyValueExpr:
+		return t.expr(x.Value)
+	case *ast.CompositeLit:
+		var out []*ir
+		for _, el := range x.Elts {
+			out = append(out, t.expr(el)...)
+		}
+		return out
+	case *ast.FuncLit:
+		return t.literal(x)
+	case *ast.SelectorExpr:
+		if f := t.fieldOf(x); f != "" {
+			if f == "skip" {
+				return nil
+			}
+			if f == "entry.CRLStore" && ctxKind != "cmp" && ctxKind != "rhs" && ctxKind != "recv" {
+				fail("%s: the entry's store escapes (%s)", t.pos(x), ctxKind)
+			}
+			if f == "entry.CRLLoader" && ctxKind != "recv" {
+				fail("%s: the entry's loader escapes", t.pos(x))
+			}
+			return []*ir{t.fact("rd", f, "", x)}
+		}
+		return t.expr(x.X)
+	case *ast.CallExpr:
+		return t.call(x)
+	case *ast.ArrayType, *ast.MapType, *ast.InterfaceType, *ast.ChanType, *ast.StructType, *ast.FuncType:
+		return nil
+	}
+	fail("%s: expression shape %T is not supported by the lock translator", t.pos(e), e)
+	return nil
+}
+
+func (t *ftrans) call(x *ast.CallExpr) []*ir {
+	if se, ok := x.Fun.(*ast.SelectorExpr); ok {
+		switch se.Sel.Name {
+		case "Lock", "RLock", "Unlock", "RUnlock":
+			if _, isLock := t.lockOf(se.X); isLock {
+				fail("%s: lock operation inside an expression", t.pos(x))
+			}
+		}
+	}
+	if strings.HasPrefix(exprStr(x), "verifhook.Hit(") {
+		return nil
+	}
+	var out []*ir
+	// builtin delete(map, key) writes the map
+	if id, ok := x.Fun.(*ast.Ident); ok && id.Name == "delete" && len(x.Args) == 2 {
+		out = append(out, t.expr(x.Args[1])...)
+		if f := t.fieldOf(x.Args[0]); f != "" {
+			return append(out, t.fact("wr", f, "", x))
+		}
+		return append(out, t.expr(x.Args[0])...)
+	}
+	// method call on the entry's store / loader, or on an alias of the store
+	if se, ok := x.Fun.(*ast.SelectorExpr); ok {
+		kind := ""
+		if inner, ok := se.X.(*ast.SelectorExpr); ok {
+			if f := t.fieldOf(inner); f == "entry.CRLStore" || f == "entry.CRLLoader" {
+				out = append(out, t.exprCtx(inner, "recv")...)
+				kind = f
+			} else if f == "skip" {
+				kind = "fresh"
+			}
+		} else if id, ok := se.X.(*ast.Ident); ok && t.stores[id.Name] == "shared" {
+			kind = "entry.CRLStore"
+		}
+		if kind == "entry.CRLStore" || kind == "entry.CRLLoader" {
+			for _, a := range x.Args {
+				out = append(out, t.expr(a)...)
+			}
+			if kind == "entry.CRLStore" {
+				mut, known := t.g.storeMut[se.Sel.Name]
+				if !known {
+					fail("%s: unknown store method %s", t.pos(x), se.Sel.Name)
+				}
+				if mut {
+					return append(out, t.fact("wr", "entry.storeContent", se.Sel.Name, x))
+				}
+				return append(out, t.fact("rd", "entry.storeContent", se.Sel.Name, x))
+			}
+			mut, known := t.g.loaderMut[se.Sel.Name]
+			if !known {
+				fail("%s: unknown loader method %s", t.pos(x), se.Sel.Name)
+			}
+			if mut {
+				return append(out, t.fact("wr", "entry.loaderState", se.Sel.Name, x))
+			}
+			return out
+		}
+		if kind == "fresh" {
+			for _, a := range x.Args {
+				out = append(out, t.expr(a)...)
+			}
+			return out
+		}
+	}
+	callee := t.callee(x)
+	if callee == "" {
+		out = append(out, t.expr(x.Fun)...)
+	}
+	for _, a := range x.Args {
+		out = append(out, t.expr(a)...)
+	}
+	if callee == "" {
+		return out
+	}
+	// bind the callee's entry / store parameters
+	cf := t.g.funcs[callee]
+	bound := false
+	if cf.fd.Type.Params != nil {
+		i := 0
+		for _, p := range cf.fd.Type.Params.List {
+			for _, n := range p.Names {
+				if i < len(x.Args) {
+					switch exprStr(p.Type) {
+					case "*Entry":
+						id, ok := x.Args[i].(*ast.Ident)
+						if !ok || t.entryVars[id.Name] == "" {
+							fail("%s: entry argument of %s is not an entry variable", t.pos(x), callee)
+						}
+						if t.entryVars[id.Name] == "fresh" {
+							fail("%s: a not yet published entry is passed to %s", t.pos(x), callee)
+						}
+						t.useEntry(id)
+						bound = true
+					case "crlstore.CRLStore":
+						want := storeParams[callee+"/"+n.Name]
+						id, ok := x.Args[i].(*ast.Ident)
+						if !ok || t.stores[id.Name] != want {
+							fail("%s: store argument of %s must be a %s store", t.pos(x), callee, want)
+						}
+					}
+				}
+				i++
+			}
+		}
+	}
+	return append(out, &ir{kind: "call", a: callee, pos: t.pos(x), entry: bound})
+}
+
+// ---- inlining and lowering to a CFG ---------------------------------------------------------
+
+type cnode struct {
+	instr string
+	succ  []int
+	pos   string
+	held  []string
+	seen  bool
+}
+
+type cfg struct {
+	g         *lockGen
+	progIndex map[string]int
+	name      string
+	nodes     []*cnode
+	entry     int
+}
+
+func (b *cfg) add(instr, pos string, succ []int) int {
+	b.nodes = append(b.nodes, &cnode{instr: instr, pos: pos, succ: succ})
+	return len(b.nodes) - 1
+}
+
+// seq lowers list so that control continues at next; ret jumps to retTo, break/continue to brk/cont.
+func (b *cfg) seq(list []*ir, next, retTo, brk, cont int, stack []string) int {
+	for i := len(list) - 1; i >= 0; i-- {
+		n := list[i]
+		switch n.kind {
+		case "acq":
+			next = b.add(fmt.Sprintf(".acq %d .%s", idx(lockNames, n.a), n.b), n.pos, []int{next})
+		case "rel":
+			next = b.add(fmt.Sprintf(".rel %d .%s", idx(lockNames, n.a), n.b), n.pos, []int{next})
+		case "rd":
+			next = b.add(fmt.Sprintf(".rd %d", idx(fieldNames, n.a)), n.pos, []int{next})
+		case "wr":
+			next = b.add(fmt.Sprintf(".wr %d", idx(fieldNames, n.a)), n.pos, []int{next})
+		case "wrInit":
+			// initialisation write: not a shared access (see initOnly)
+		case "pick":
+			next = b.add(".pick", n.pos, []int{next})
+		case "spawn":
+			pi, ok := b.progIndex[n.a]
+			if !ok {
+				fail("%s: goroutine %s is not one of the modelled thread programs", n.pos, n.a)
+			}
+			next = b.add(fmt.Sprintf(".spawn %d", pi), n.pos, []int{next})
+		case "ret":
+			next = retTo
+		case "break":
+			if brk < 0 {
+				fail("%s: break outside a loop", n.pos)
+			}
+			next = brk
+		case "continue":
+			if cont < 0 {
+				fail("%s: continue outside a loop", n.pos)
+			}
+			next = cont
+		case "alt":
+			var es []int
+			for _, a := range n.alts {
+				es = append(es, b.seq(a, next, retTo, brk, cont, stack))
+			}
+			next = b.add(".nop", n.pos, es)
+		case "loop":
+			head := b.add(".nop", n.pos, nil)
+			body := b.seq(n.body, head, retTo, next, head, stack)
+			b.nodes[head].succ = []int{body, next}
+			next = head
+		case "loop1":
+			next = b.seq(n.body, next, retTo, next, -1, stack)
+		case "call":
+			for _, s := range stack {
+				if s == n.a {
+					fail("%s: recursion through %s", n.pos, n.a)
+				}
+			}
+			if !b.g.hasFacts(n.a, map[string]bool{}) {
+				continue
+			}
+			next = b.seq(b.g.funcs[n.a].body, next, next, -1, -1, append(append([]string{}, stack...), n.a))
+		default:
+			fail("locks: unknown ir kind %s", n.kind)
+		}
+	}
+	return next
+}
+
+// finish computes the held annotation by forward dataflow, drops unreachable nodes, records nesting.
+func (b *cfg) finish(entry int, nest map[[2]int]string) {
+	type item struct {
+		n    int
+		held []string
+	}
+	work := []item{{entry, nil}}
+	for len(work) > 0 {
+		it := work[len(work)-1]
+		work = work[:len(work)-1]
+		n := b.nodes[it.n]
+		if n.seen {
+			if strings.Join(n.held, ",") != strings.Join(it.held, ",") {
+				fail("%s: program %s reaches this point holding [%s] on one path and [%s] on another (Lock without matching Unlock on some path)",
+					n.pos, b.name, strings.Join(n.held, ","), strings.Join(it.held, ","))
+			}
+			continue
+		}
+		n.seen = true
+		n.held = it.held
+		out := append([]string{}, it.held...)
+		f := strings.Fields(n.instr)
+		switch f[0] {
+		case ".acq":
+			var li int
+			fmt.Sscan(f[1], &li)
+			for _, h := range it.held {
+				e := [2]int{idx(lockNames, strings.Split(h, "/")[0]), li}
+				if _, ok := nest[e]; !ok {
+					nest[e] = n.pos
+				}
+			}
+			out = append([]string{lockNames[li] + "/" + f[2][1:]}, out...)
+		case ".rel":
+			var li int
+			fmt.Sscan(f[1], &li)
+			key := lockNames[li] + "/" + f[2][1:]
+			found := false
+			for k, h := range out {
+				if h == key {
+					out = append(out[:k], out[k+1:]...)
+					found = true
+					break
+				}
+			}
+			if !found {
+				fail("%s: program %s releases %s which is not held in that mode on this path (holding [%s])", n.pos, b.name, key, strings.Join(it.held, ","))
+			}
+		case "ret":
+			if len(it.held) != 0 {
+				fail("%s: program %s ends holding [%s] (Lock without matching Unlock on some path)", n.pos, b.name, strings.Join(it.held, ","))
+			}
+		}
+		for _, s := range n.succ {
+			work = append(work, item{s, out})
+		}
+	}
+	// renumber reachable nodes
+	remap := map[int]int{}
+	var kept []*cnode
+	for i, n := range b.nodes {
+		if n.seen {
+			remap[i] = len(kept)
+			kept = append(kept, n)
+		}
+	}
+	for _, n := range kept {
+		for k, s := range n.succ {
+			n.succ[k] = remap[s]
+		}
+		if n.instr == "ret" {
+			n.instr = ".ret"
+		}
+	}
+	b.nodes = kept
+	b.entry = remap[entry]
+}
+
+func (b *cfg) positions() []string {
+	var o []string
+	for _, n := range b.nodes {
+		o = append(o, n.pos)
+	}
+	return o
 }
